@@ -107,6 +107,54 @@ pub fn twin(text: &str) -> Option<String> {
     Some(out)
 }
 
+/// Token twins: the same tree shape and span numbering with different token *texts* — what a cache keyed by span (or by
+/// node address, or by tree shape) cannot tell apart. Variant 0: every integer literal n becomes n+2 (`columns: 2` -> `columns: 4`);
+/// variant 1: every code identifier gets its last character replaced by `1` (`table` -> `tabl1`: no longer a table call).
+pub fn twin_tokens(text: &str, variant: usize) -> Option<String> {
+    let root = tree::parse_ok(text)?;
+    let mut edits: Vec<(usize, usize, String)> = vec![];
+    for l in tree::leaves(&root) {
+        match (variant, l.kind()) {
+            (0, K::Int) => {
+                if let Ok(v) = l.node.text().parse::<u64>() {
+                    if v < 1_000_000 {
+                        edits.push((l.start, l.end(), (v + 2).to_string()));
+                    }
+                }
+            }
+            (1, K::Ident) => {
+                let t = l.node.text().to_string();
+                let mut cs: Vec<char> = t.chars().collect();
+                match cs.last() {
+                    Some(c) if c.is_ascii_alphabetic() && cs.len() > 1 => {
+                        let n = cs.len();
+                        cs[n - 1] = '1';
+                    }
+                    _ => cs.push('1'),
+                }
+                edits.push((l.start, l.end(), cs.into_iter().collect()));
+            }
+            _ => {}
+        }
+    }
+    if edits.is_empty() {
+        return None;
+    }
+    let mut out = String::new();
+    let mut last = 0;
+    for (a, b, s) in edits {
+        out.push_str(&text[last..a]);
+        out.push_str(&s);
+        last = b;
+    }
+    out.push_str(&text[last..]);
+    let r2 = tree::parse_ok(&out)?;
+    if tree::count_nodes(&r2) != tree::count_nodes(&root) {
+        return None;
+    }
+    Some(out)
+}
+
 pub fn build_items(cases: &[crate::engine::Case], n: usize, rng: &mut Rng) -> Vec<Item> {
     let mut items = vec![];
     let mut idx: Vec<usize> = (0..cases.len()).collect();
@@ -114,9 +162,11 @@ pub fn build_items(cases: &[crate::engine::Case], n: usize, rng: &mut Rng) -> Ve
     // documents with `@typstyle off` regions, comments and imports exercise the per-call attribute state:
     // always have some of each among the items
     let mut forced: Vec<usize> = vec![];
-    for pat in ["@typstyle off", "/*", "#import", "$"] {
+    for pat in ["@typstyle off", "/*", "#import", "$", "table(", "grid(", "columns:"] {
         forced.extend(idx.iter().copied().filter(|&i| cases[i].text.contains(pat) && cases[i].text.len() < 600).take(6));
     }
+    // every import that renames items (sort keys with ties: one path under several aliases)
+    forced.extend(idx.iter().copied().filter(|&i| cases[i].text.contains("import") && cases[i].text.matches(" as ").count() >= 2 && cases[i].text.len() < 600).take(40));
     forced.extend(idx.iter().copied());
     let idx = forced;
     for &i in idx.iter() {
@@ -133,6 +183,11 @@ pub fn build_items(cases: &[crate::engine::Case], n: usize, rng: &mut Rng) -> Ve
         items.push(Item { text: c.text.clone(), cfg, origin: c.origin.clone() });
         if let Some(t) = twin(&c.text) {
             items.push(Item { text: t, cfg, origin: format!("{}|twin", c.origin) });
+        }
+        for v in 0..2 {
+            if let Some(t) = twin_tokens(&c.text, v) {
+                items.push(Item { text: t, cfg, origin: format!("{}|token-twin{}", c.origin, v) });
+            }
         }
     }
     items
